@@ -114,6 +114,9 @@ def run(ctx):
     loops = [l for l in walk_no_nested(rb) if isinstance(l, ast.For)]
     ok = len(loops) == 1 and norm(loops[0].iter) in ("list(self.used_by)", "tuple(self.used_by)", "set(self.used_by)", "list(self.used_by.copy())")
     ctx.ob("C02.R2", site, "replace_by walks a snapshot of ALL users of the value (replace_use edits used_by while it runs)", ok, construct="replace-by-snapshot", detail=norm(loops[0].iter) if loops else "")
+    refuse = [n for n in ast.walk(rb) if isinstance(n, (ast.Raise, ast.Assert))]
+    ctx.ob("C02.R2", site, "replace_by refuses nothing (no raise / assert on the types of the two values): the IR readers patch forward-reference placeholders, whose type is only guessed (ptr), through it", not refuse, construct="replace-by-total",
+           node=refuse[0] if refuse else None, detail="; ".join(" ".join(norm(x).split())[:70] for x in refuse))
     if loops:
         u = norm(loops[0].target)
         calls = [c for c in ast.walk(loops[0]) if isinstance(c, ast.Call) and norm(c.func) == u + ".replace_use"]
